@@ -362,6 +362,16 @@ Definition create_nested (s : st) (child : prim) : res (st * ((N * N) * (N * N))
   let '(s', p) := r in
   Ok (s', (p, (lenN (refs s) + 1, 0))).
 
+(** harness storage.rs: Nested2::to_primitive = { let m = update.create(Nested { child })?; << /Child m >> } *)
+Definition nested2_conv (child : prim) (s : st) : res (st * prim) :=
+  do r <- create_with s (nested_conv child); Ok (fst r, PDict [(k_Child, PRef (fst (snd r)) (snd (snd r)))]).
+
+(** create(Nested2 { child }): parent, middle, leaf *)
+Definition create_nested2 (s : st) (child : prim) : res (st * ((N * N) * (N * N) * (N * N))) :=
+  do r <- create_with s (nested2_conv child);
+  let '(s', p) := r in
+  Ok (s', (p, (lenN (refs s) + 1, 0), (lenN (refs s) + 2, 0))).
+
 (** file.rs: Updater::promise *)
 Definition promise (s : st) : st * (N * N) :=
   let id := lenN (refs s) in
